@@ -521,7 +521,7 @@ theorem loop_spec (R : Res) (f0 : Forest) : ∀ (fuel : Nat) (mods : Array Nat) 
     unfold augmentLoopR
     by_cases he : mods.isEmpty = true
     · simp only [he, if_true]
-      refine ⟨[], by simp, Chain.nil rfl (FLe.refl _), Book.refl hn, rfl, fun m h => h, hcov, ?_⟩
+      refine ⟨[], by simp, Chain.nil rfl (FLe.refl _), Book.refl hn, by first | rfl | trivial, fun m h => h, hcov, ?_⟩
       intro _ id a ha
       have hne : s.pendingOf id ≠ [] := by intro h; rw [h] at ha; cases ha
       have := hcov id hne
